@@ -27,6 +27,12 @@ pub struct RunStep {
     /// a run, and must leave the record of the completed runs alone
     #[serde(default)]
     pub rejected: bool,
+    /// files rewritten before this run (changed-mode runs of a checkpointed history)
+    #[serde(default)]
+    pub edits: Vec<String>,
+    /// `checkpoint update -p` before this run: afterwards nothing is changed
+    #[serde(default)]
+    pub cp_update_before: bool,
 }
 
 pub fn flat_world(rng: &mut Rng, nt: usize, ncmd: usize, max_retained: usize, undefined_pct: u32, git: bool) -> WorldSpec {
@@ -38,7 +44,7 @@ pub fn flat_world(rng: &mut Rng, nt: usize, ncmd: usize, max_retained: usize, un
             if rng.chance(undefined_pct, 100) {
                 continue;
             }
-            cmd_files.push(CmdFile { target: path.clone(), command: c.to_string(), rel: WorldSpec::default_cmd_rel(&path, c), exec: true });
+            cmd_files.push(CmdFile { target: path.clone(), command: c.to_string(), rel: WorldSpec::default_cmd_rel(&path, c), exec: true, broken: false });
         }
         targets.push(TargetSpec { path, ..Default::default() });
     }
@@ -75,7 +81,7 @@ pub fn gen_step(rng: &mut Rng, spec: &WorldSpec, serial: usize, allow_fail: bool
         let i = rng.below(behav.len());
         behav[i].code = *rng.pick(&[1, 2, 77]);
     }
-    RunStep { opts, behav, rejected: false }
+    RunStep { opts, behav, rejected: false, edits: vec![], cp_update_before: false }
 }
 
 pub fn step_script(step: &RunStep, rand_seed: u64) -> RunScript {
@@ -168,6 +174,12 @@ pub struct C12Scenario {
     pub spec: WorldSpec,
     pub runs: Vec<RunStep>,
     pub rand_seed: u64,
+    /// the history starts with `checkpoint update`; runs without -t then cover the changed targets only
+    #[serde(default)]
+    pub checkpointed: bool,
+    /// every unlink/rmdir below the output directory takes this long (a slow disk)
+    #[serde(default)]
+    pub unlink_delay_us: Option<u32>,
 }
 
 pub struct C12;
@@ -177,7 +189,8 @@ fn gen_c12(seed: u64, idx: usize, tier: Tier) -> C12Scenario {
     let max = *rng.pick(&[1usize, 2, 3, 5]);
     let nt = rng.range(2, 4);
     let ncmd = rng.range(2, 3);
-    let spec = flat_world(&mut rng, nt, ncmd, max, 10, false);
+    let checkpointed = rng.chance(1, 3);
+    let spec = flat_world(&mut rng, nt, ncmd, max, 10, checkpointed);
     let mult = if tier == Tier::Thorough { rng.range(3, 6) } else { rng.range(3, 4) };
     let n = (max * mult).max(4).min(24);
     let mut runs: Vec<RunStep> = (1..=n).map(|i| gen_step(&mut rng, &spec, i, true, ncmd)).collect();
@@ -187,7 +200,30 @@ fn gen_c12(seed: u64, idx: usize, tier: Tier) -> C12Scenario {
             r.opts.sequences = vec!["no-such-sequence".into()];
         }
     }
-    C12Scenario { spec, runs, rand_seed: rng.next_u64() % 1_000_000 }
+    if checkpointed {
+        // changed-mode runs: nothing changed at first (an empty run is a completed run too), then edits accumulate
+        let mut edited_any = false;
+        for r in runs.iter_mut() {
+            if r.rejected || rng.chance(1, 2) {
+                continue;
+            }
+            r.opts.targets.clear();
+            if edited_any && rng.chance(1, 4) {
+                r.cp_update_before = true;
+                edited_any = false;
+            }
+            if rng.chance(2, 3) {
+                for t in &spec.targets {
+                    if rng.chance(1, 2) {
+                        r.edits.push(format!("{}/file.txt", t.path));
+                        edited_any = true;
+                    }
+                }
+            }
+        }
+    }
+    let unlink_delay_us = if rng.chance(1, 5) { Some(*rng.pick(&[2_000u32, 5_000])) } else { None };
+    C12Scenario { spec, runs, rand_seed: rng.next_u64() % 1_000_000, checkpointed, unlink_delay_us }
 }
 
 impl Property for C12 {
@@ -215,6 +251,15 @@ impl Property for C12 {
         w.set_rand_seed(sc.rand_seed);
         let max = sc.spec.max_retained_runs;
         let mut out = Outcome::default();
+        if let Some(us) = sc.unlink_delay_us {
+            w.knobs.push(("FSFAULT_ROOT".into(), w.out_dir().to_string_lossy().into_owned()));
+            w.knobs.push(("FSFAULT_UNLINK_DELAY_US".into(), us.to_string()));
+            out.fault("slow_unlink_below_the_output_directory", 1);
+        }
+        if sc.checkpointed && w.cli(&["checkpoint", "update"]).code != Some(0) {
+            return Outcome::skip("checkpoint update failed");
+        }
+        let mut edit_no = 0;
         let mut history: Vec<BTreeMap<(String, String, String), Vec<u8>>> = vec![];
         let mut dirsets: Vec<BTreeSet<String>> = vec![];
         let mut shrunk_slot = false;
@@ -269,7 +314,17 @@ impl Property for C12 {
                 continue;
             }
             serial += 1;
+            if step.cp_update_before && w.cli(&["checkpoint", "update", "-p"]).code != Some(0) {
+                return Outcome::skip("checkpoint update -p failed");
+            }
+            for f in &step.edits {
+                edit_no += 1;
+                let _ = w.write_file(f, &format!("edit {}\n", edit_no));
+            }
             let tr = drive_run(&mut w, "M1", &step_script(step, sc.rand_seed + serial as u64), hang);
+            if sc.checkpointed && step.opts.targets.is_empty() && tr.helpers.is_empty() {
+                out.fault("run_that_selects_nothing_in_history", 1);
+            }
             out.steps += tr.steps as u64;
             out.sub_evals += 1;
             out.trace.push(format!("run {} {} -> exit {:?}", serial, tr.args.join(" "), tr.code()));
